@@ -20,6 +20,7 @@ import (
 	"github.com/pion/ice/v4"
 
 	"verif/sim/core"
+	"verif/sim/tape"
 )
 
 type parked struct {
@@ -36,6 +37,11 @@ type Sched struct {
 	seq     uint64
 	enabled map[string]bool // nil = all sites enabled
 	off     bool
+	pass    int // >0: every Yield returns at once (the root goroutine is making calls of its own)
+	// T is the tape that decides ties handed to the simulator by the code under test (default: the run's tape).
+	T *tape.Tape
+	// Picks counts those decisions.
+	Picks int
 	// Parks counts how often each site parked a goroutine.
 	Parks map[string]int
 	// MaxParked is the largest number of simultaneously parked goroutines seen at a decision.
@@ -45,7 +51,7 @@ type Sched struct {
 // Install creates a scheduler and installs it as the Yield hook for this run.
 // sites == nil enables every site; otherwise only the listed ones park.
 func Install(c *core.Ctx, sites []string) *Sched {
-	s := &Sched{c: c, Parks: map[string]int{}}
+	s := &Sched{c: c, Parks: map[string]int{}, T: c.T}
 	if sites != nil {
 		s.enabled = map[string]bool{}
 		for _, x := range sites {
@@ -61,7 +67,20 @@ func Install(c *core.Ctx, sites []string) *Sched {
 	oldGC := debug.SetGCPercent(-1)
 	c.Defer(func() { debug.SetGCPercent(oldGC) })
 	ice.VerifSetYield(s.yield)
+	// a submission to the loop whose context is already cancelled while the hand-off is possible too: the
+	// runtime's select would choose at random, the tape chooses instead
+	ice.VerifSetPick(func(site string, n int) int {
+		s.mu.Lock()
+		off := s.off
+		s.Picks++
+		s.mu.Unlock()
+		if off {
+			return -1
+		}
+		return s.T.Choose(n, "pick")
+	})
 	c.Defer(func() {
+		ice.VerifSetPick(nil)
 		// never unwind with goroutines still parked: release everything, then remove the hook
 		s.Drain()
 		ice.VerifSetYield(nil)
@@ -71,7 +90,7 @@ func Install(c *core.Ctx, sites []string) *Sched {
 
 func (s *Sched) yield(site string) {
 	s.mu.Lock()
-	if s.off || (s.enabled != nil && !s.enabled[site]) {
+	if s.off || s.pass > 0 || (s.enabled != nil && !s.enabled[site]) {
 		s.mu.Unlock()
 		return
 	}
@@ -188,4 +207,43 @@ func (s *Sched) Drain() {
 // Describe summarises what is parked (for violation messages).
 func (s *Sched) Describe() string {
 	return fmt.Sprintf("%v", s.Sites())
+}
+
+// Exempt runs fn with the park sites switched off: the root goroutine of a run must never park itself, so
+// its own API calls (and whatever runs concurrently while it waits for them) pass the sites freely.
+func (s *Sched) Exempt(fn func()) {
+	s.SetPass(true)
+	defer s.SetPass(false)
+	fn()
+}
+
+// SetPass switches the park sites off (true) or on again (false); calls nest.
+func (s *Sched) SetPass(on bool) {
+	s.mu.Lock()
+	if on {
+		s.pass++
+	} else if s.pass > 0 {
+		s.pass--
+	}
+	s.mu.Unlock()
+}
+
+// ReleaseIdx releases the i-th parked goroutine in canonical order; returns its site ("" if out of range).
+func (s *Sched) ReleaseIdx(i int) string {
+	ps := s.sorted()
+	if i < 0 || i >= len(ps) {
+		return ""
+	}
+	if len(ps) > s.MaxParked {
+		s.MaxParked = len(ps)
+	}
+	s.release(ps[i])
+	return ps[i].site
+}
+
+// Uninstall releases everything and removes the hook (for checks that build several rigs per run).
+func (s *Sched) Uninstall() {
+	s.Drain()
+	ice.VerifSetYield(nil)
+	ice.VerifSetPick(nil)
 }
